@@ -42,8 +42,21 @@ def parseDigits (base : Nat) : Bytes → Nat → Option Nat
 
 inductive PErr | syntax | range deriving DecidableEq, Repr
 
+/-- `strconv.ParseUint(_, base, 32)` checks the range digit by digit: it returns its range error at
+    the first digit that takes the value above 2^32-1, BEFORE it looks at the bytes behind it.
+    `true` = that happens before any byte that is not a digit of the base. -/
+def overflowsEarly (base : Nat) : Bytes → Nat → Bool
+  | [], _ => false
+  | c :: cs, acc =>
+    match digitVal c with
+    | some d =>
+      if d < base then (if acc * base + d > 4294967295 then true else overflowsEarly base cs (acc * base + d))
+      else false
+    | none => false
+
 /-- `strconv.ParseInt(s, base, 32)` for an explicit base in 2..36: value and error.
-    On a syntax error Go returns 0; on a range error the nearest bound. -/
+    On a syntax error Go returns 0; on a range error the nearest bound (also when a
+    bad byte follows the digits that overflowed: `overflowsEarly`). -/
 def parseInt32 (base : Nat) (s : Bytes) : Int × Option PErr :=
   match s with
   | [] => (0, some .syntax)
@@ -54,7 +67,10 @@ def parseInt32 (base : Nat) (s : Bytes) : Int × Option PErr :=
     | [] => (0, some .syntax)
     | _ =>
       match parseDigits base ds 0 with
-      | none => (0, some .syntax)
+      | none =>
+        -- a bad byte somewhere: a syntax error, unless the digits in front of it already overflowed
+        if overflowsEarly base ds 0 then (if neg then (-2147483648, some .range) else (2147483647, some .range))
+        else (0, some .syntax)
       | some un =>
         if !neg && un ≥ 2147483648 then (2147483647, some .range)
         else if neg && un > 2147483648 then (-2147483648, some .range)
